@@ -4,4 +4,5 @@ INVARIANT SelfValue
 INVARIANT SelfTyped
 INVARIANT SelfMsg
 INVARIANT Emit
+INVARIANT EmitSchema
 CHECK_DEADLOCK FALSE
